@@ -176,6 +176,31 @@ def rule_sites(c, prog, full=True):
             c.ok(R, inst)
         else:
             c.violation(R, f"{label}|guard", f"{core.short(f.path)}: on a migrating property the migrated value must be stored only under migration.new_property_name and only when that property is not present yet, and the legacy name must never be stored (stores of a migrated value: {r['migrated_store']}, under another name: {r['bad_name']}, without an absence test of the destination: {r['unguarded']}, legacy-name stores after a successful migration: {r['legacy_store_on_ok']}): otherwise an explicit new value can be overwritten depending on element / chunk order", f.sp, instance=inst)
+    # the other half of "explicit wins in either order": an explicit (non-migrating) value is always stored, whatever
+    # is there already, so that it replaces a migrated value filed earlier; and a legacy value whose destination is
+    # already present is ignored altogether, including its failure to migrate
+    for label, fnc in (("binary-reader", S.explicit_binary_reader), ("xml-reader", S.explicit_xml_reader)):
+        inst = f"{label}:explicit-always-stored"
+        try:
+            f, r = fnc(prog)
+        except (_sym.Unsupported, core.AnalysisError) as e:
+            c.violation(R, f"{label}|explicit|cannot-analyse", f"the {label} on an explicit property is outside the symbolic model: {e}", "", instance=inst)
+            continue
+        c.sample({"rule": R, "explicit_scenario": {label: r}})
+        if r["paths"] >= 1 and r["stores"] == r["paths"] and not r["guarded"]:
+            c.ok(R, inst)
+        else:
+            c.violation(R, f"{label}|explicit-not-stored", f"{core.short(f.path)}: a property that does not migrate must be stored on every path and without looking at what is already stored under its name (paths: {r['paths']}, storing: {r['stores']}, deciding on presence: {r['guarded'][:2]}): the migrated legacy value is filed under the same name when it comes first, and an explicit value that is then skipped loses to it", f.sp, instance=inst)
+    for label in ("binary-reader", "xml-reader"):
+        if label not in results or "err_paths" not in results[label][1]:
+            continue
+        f, r = results[label]
+        total, blind = r["err_paths"]
+        inst = f"{label}:failure-ignored-when-present"
+        if blind:
+            c.violation(R, f"{label}|err-before-presence", f"{core.short(f.path)}: {blind} path(s) end decoding because PropertyMigration::perform failed without having established that migration.new_property_name is absent: a file that gives the new property explicitly and then an unmigratable legacy value is rejected instead of decoding to the explicit value", f.sp, instance=inst)
+        else:
+            c.ok(R, inst)
     if "xml-writer" in results:
         f, r = results["xml-writer"]
         if r["migrated_store"] >= 1 and not r["bad_name"] and r["legacy_store_on_ok"] == 0:
@@ -227,11 +252,100 @@ def rule_win(c, prog):
         c.ok(R, "xml-writer:explicit-wins", max(r["migrated_store"], 1))
 
 
+def rule_memo(c, prog):
+    """binary writer: what is recorded per class for a property name must not depend on the instance that happened to be
+    visited first"""
+    R = "C15.memo"
+    c.rule(R, "binary writer, type collection: a (class, property name) pair is examined once and the result (alias set, migration, column) is kept for every instance of the class; no decision on what is recorded may look into the visiting instance's other properties, or a legacy name first met on an instance that also carries the new property is never registered and later legacy-only instances lose their value")
+    f = common.find_fn(prog, r"serializer::state::SerializerState.*::collect_type_info$")
+    INST = "rbx_dom_weak::instance::Instance"
+
+    def peel(ty):
+        ty = ty or ""
+        while ty.startswith("&"):
+            ty = ty[5:] if ty.startswith("&mut ") else ty[1:]
+        return ty
+
+    def looks_into_instance(cond):
+        """a query of the visiting instance's property map inside a condition"""
+        for y in core.walk(cond):
+            if y.get("k") == "MethodCall":
+                r = core.strip(y["recv"])
+                while r.get("k") in ("AddrOf", "Unary"):
+                    r = core.strip(r["e"])
+                if r.get("k") == "Field" and peel(core.strip(r["e"]).get("ty")) == INST and r.get("f") == "properties" and y["m"] not in ("iter", "len", "is_empty", "keys", "values"):
+                    return core.fingerprint(y, 4)
+        return None
+
+    def is_record(x):
+        """a write into the per-class table: alias registration, migration, a new PropInfo"""
+        if x.get("k") == "MethodCall" and x["m"] in ("insert", "push", "extend", "entry"):
+            rty = peel(core.strip(x["recv"]).get("ty"))
+            root = core.place_root(x["recv"])
+            return ("UstrSet" in rty or "HashSet" in rty or "PropInfo" in rty or "BTreeMap" in rty or "UstrMap" in rty) and root[0] not in (None, "self") or (root[0] == "self" and "type_infos" in "".join(root[1]))
+        if x.get("k") == "Assign":
+            l = core.strip(x["l"])
+            return l.get("k") == "Field" and "PropInfo" in peel(core.strip(l["e"]).get("ty"))
+        return False
+    # walk with the stack of enclosing conditions, plus the conditions of earlier statements that can leave the iteration
+    findings = []
+    n_rec = [0]
+
+    def leaves(n):
+        return any(y.get("k") in ("Continue", "Ret", "Break") for y in core.walk(n, into_closures=False))
+
+    def visit(n, conds):
+        k = n.get("k")
+        if is_record(n):
+            n_rec[0] += 1
+            for cnd in conds:
+                q = looks_into_instance(cnd)
+                if q:
+                    findings.append((n, q))
+        if k == "If":
+            visit(n["c"], conds)
+            visit(n["t"], conds + [n["c"]])
+            if "f" in n:
+                visit(n["f"], conds + [n["c"]])
+            return
+        if k == "Match":
+            visit(n["e"], conds)
+            for a in n["arms"]:
+                cs = conds + [n["e"]] + ([a["guard"]] if "guard" in a else [])
+                visit(a["body"], cs)
+            return
+        if k in ("Block", "Loop"):
+            cs = list(conds)
+            for e in core.block_exprs(n["b"]):
+                visit(e, cs)
+                # an earlier statement that may `continue` / return makes everything after it depend on its tests
+                for y in core.walk(e, into_closures=False):
+                    if y.get("k") == "If" and leaves(y):
+                        cs = cs + [y["c"]]
+                    elif y.get("k") == "Match" and leaves(y) and y.get("src") == "Normal":
+                        cs = cs + [y["e"]] + [a["guard"] for a in y["arms"] if "guard" in a]
+            return
+        for ch in core.children(n):
+            visit(ch, conds)
+    visit(f.body, [])
+    c.floor(R, n_rec[0], 2, "writes into the per-class property table in collect_type_info")
+    seen = set()
+    for n, q in findings:
+        key = f"instance-dependent|{(n.get('m') or 'assign')}|{q.split('(')[0][-40:]}"
+        if key in seen:
+            continue
+        seen.add(key)
+        c.violation(R, key, f"collect_type_info records per-class information (`{core.fingerprint(n, 3)[:60]}`) under a condition that looks into the visiting instance's properties ({q[:80]}): the (class, name) pair is examined only once, so what the first instance carries decides for all later ones", core.loc(n), instance="collect_type_info:class-level-records")
+    if not findings:
+        c.ok(R, "collect_type_info:class-level-records", n_rec[0])
+
+
 def run(c, prog):
     d = dbm.Database()
     rule_win(c, prog)
     rule_tbl(c, prog, d)
     rule_sites(c, prog)
+    rule_memo(c, prog)
     from . import C08
     C08.rule_own(core.Alias(c, "C15"), prog)     # binary writer: an explicit (canonical) value is looked up before any legacy alias
     c.not_decided += ["equality of the migrated values on the four paths beyond `one function produces them all`"]
